@@ -6,6 +6,15 @@
 //! observation: one field per second n = 0..H-1, sampled 0.75 s after the operations of that second:
 //!   finished, handlers pending, number of control messages, their codes, bytes received by the peer
 //!
+//! With cfg[8] = kind != 0 the scenario runs a REAL MQTT endpoint instead of the bare dispatcher:
+//!   kind 3 / 5    v3 / v5 MqttServer (connect timeout cfg[9] s, frame-read-rate cfg[4..7]); the harness is
+//!                 the client: ops 20 CONNECT (keep-alive cfg[0]), 21 PINGREQ, 22 byte C0, 23 byte 00,
+//!                 24 first five bytes of CONNECT, 25 the rest of CONNECT, 26 byte 0x82 (first byte of a
+//!                 SUBSCRIBE), 27 byte 0x05 (its remaining length: the header is complete), 3 close
+//!   kind 13 / 15  v3 / v5 client with keep-alive cfg[0] s; the harness is the broker: ops 30 CONNACK, 3 close
+//!   observation per second: closed (0/1), then for every packet received so far its first byte
+//!   (32 CONNACK, 208 PINGRESP, 16 CONNECT, 192 PINGREQ, 224 DISCONNECT followed by its reason code)
+//!
 //! All scenarios of the input run CONCURRENTLY on one runtime.  The ntex-io timer wheel ticks once a
 //! second from the moment its first timer is registered; a dummy connection registers a long timer
 //! first and keeps the wheel running, the scenarios start 0.5 s later: a timer armed by an operation
@@ -29,8 +38,177 @@ async fn sleep_until(t: Instant) {
     }
 }
 
+/// first byte of every complete packet in `b`; a DISCONNECT is followed by its reason code
+fn packet_codes(b: &[u8]) -> Vec<u64> {
+    let mut out = Vec::new();
+    let mut i = 0;
+    while i < b.len() {
+        let first = b[i];
+        let (mut len, mut mul, mut j) = (0usize, 1usize, i + 1);
+        loop {
+            if j >= b.len() {
+                return out;
+            }
+            len += (b[j] as usize & 0x7f) * mul;
+            mul *= 128;
+            j += 1;
+            if b[j - 1] & 0x80 == 0 {
+                break;
+            }
+        }
+        if j + len > b.len() {
+            return out;
+        }
+        out.push(u64::from(first));
+        if first == 0xE0 {
+            // v5: reason code is the first body byte (absent = 0); v3: no body
+            out.push(if len > 0 { u64::from(b[j]) } else { 0 });
+        }
+        i = j + len;
+    }
+    out
+}
+
+fn connect_bytes(v5: bool, ka: u64) -> Vec<u8> {
+    let mut v = if v5 {
+        b"\x10\x0e\x00\x04MQTT\x05\x02\x00\x00\x00\x00\x01c".to_vec()
+    } else {
+        b"\x10\x0d\x00\x04MQTT\x04\x02\x00\x00\x00\x01c".to_vec()
+    };
+    v[10] = (ka >> 8) as u8;
+    v[11] = ka as u8;
+    v
+}
+
+async fn run_mqtt_case(c: Fields, start: Instant) -> Fields {
+    use ntex::service::{Pipeline, ServiceFactory, fn_service};
+    use ntex_mqtt::{MqttServiceConfig, v3, v5};
+
+    let cfg = c.first().cloned().unwrap_or_default();
+    let g = |i: usize| cfg.get(i).copied().unwrap_or(0);
+    let (ka, horizon, kind, ct) = (g(0), g(7), g(8), g(9));
+    let v5k = kind == 5 || kind == 15;
+    sleep_until(start).await;
+
+    let mut iocfg = ntex_io::IoConfig::new();
+    if g(4) != 0 {
+        iocfg = iocfg.set_frame_read_rate(Seconds(g(4) as u16), Seconds(g(5) as u16), g(6) as u32);
+    }
+    let mcfg = MqttServiceConfig::new().set_connect_timeout(Seconds(ct as u16));
+    let shared: SharedCfg = SharedCfg::new("RT").add(mcfg).add(iocfg).into();
+
+    let panicked = Rc::new(std::cell::Cell::new(false));
+    // like conn::start_server, with the server task's panics contained (observation 9999)
+    macro_rules! server {
+        ($srv:expr) => {{
+            let (client, server) = IoTest::create();
+            client.remote_buffer_cap(1 << 20);
+            let io: ntex_io::IoBoxed = Io::new(server, shared.clone()).into();
+            let svc = Pipeline::new(
+                ServiceFactory::<ntex_io::IoBoxed, SharedCfg>::create(&$srv, shared.clone())
+                    .await
+                    .expect("service"),
+            );
+            let p2 = panicked.clone();
+            ntex::rt::spawn(async move {
+                if super::iostate::CatchPanic(Box::pin(svc.call(io))).await.is_none() {
+                    p2.set(true);
+                }
+            });
+            settle().await;
+            client
+        }};
+    }
+    let peer: IoTest = if kind == 3 {
+        let srv = v3::MqttServer::new(|h: v3::Handshake| async move { Ok::<_, ()>(h.ack((), false)) })
+            .publish(|_p: v3::Publish| async { Ok::<_, ()>(()) });
+        server!(srv)
+    } else if kind == 5 {
+        let srv = v5::MqttServer::new(|h: v5::Handshake| async move { Ok::<_, crate::conn::HErr>(h.ack(())) })
+            .publish(|p: v5::Publish| async move { Ok::<_, crate::conn::HErr>(p.ack()) });
+        server!(srv)
+    } else {
+        // client: the harness is the broker on `peer`
+        let (peer, end) = IoTest::create();
+        peer.remote_buffer_cap(1 << 20);
+        let end = RefCell::new(Some(end));
+        let cfg2 = shared.clone();
+        macro_rules! client {
+            ($v:ident) => {{
+                let connector = $v::client::MqttConnector::<String, _>::new().connector(fn_service(
+                    move |_: ntex::connect::Connect<String>| {
+                        let io = end.borrow_mut().take().map(|e| Io::new(e, cfg2.clone()));
+                        async move { io.ok_or(ntex::connect::ConnectError::Unresolved) }
+                    },
+                ));
+                let shared = shared.clone();
+                ntex::rt::spawn(async move {
+                    let svc = Pipeline::new(connector.create(shared).await.expect("connector"));
+                    let connect = $v::client::Connect::new("broker".to_string())
+                        .client_id("c")
+                        .keep_alive(Seconds(ka as u16));
+                    if let Ok(client) = svc.call(connect).await {
+                        client.start_default().await;
+                    }
+                });
+            }};
+        }
+        if v5k {
+            client!(v5)
+        } else {
+            client!(v3)
+        }
+        settle().await;
+        peer
+    };
+    let reader = peer.clone();
+    let mut peer = Some(peer);
+    let mut seen: Vec<u8> = Vec::new();
+    let mut obs = Fields::new();
+    for n in 0..horizon {
+        sleep_until(start + Duration::from_millis(n * 1000)).await;
+        for op in c.iter().skip(1) {
+            if op.first() != Some(&n) {
+                continue;
+            }
+            let bytes: Option<Vec<u8>> = match op.get(1) {
+                Some(20) => Some(connect_bytes(v5k, ka)),
+                Some(21) => Some(vec![0xC0, 0x00]),
+                Some(22) => Some(vec![0xC0]),
+                Some(23) => Some(vec![0x00]),
+                Some(24) => Some(connect_bytes(v5k, ka)[..5].to_vec()),
+                Some(25) => Some(connect_bytes(v5k, ka)[5..].to_vec()),
+                Some(26) => Some(vec![0x82]),
+                Some(27) => Some(vec![0x05]),
+                Some(30) => Some(if v5k { vec![0x20, 3, 0, 0, 0] } else { vec![0x20, 2, 0, 0] }),
+                Some(3) => {
+                    drop(peer.take());
+                    None
+                }
+                _ => None,
+            };
+            if let (Some(b), Some(p)) = (bytes, &peer) {
+                p.write(b);
+            }
+            settle().await;
+        }
+        sleep_until(start + Duration::from_millis(n * 1000 + 750)).await;
+        seen.extend_from_slice(&reader.read_any());
+        let closed = reader.is_closed() || reader.is_server_dropped();
+        let mut f = vec![u64::from(closed)];
+        f.extend(packet_codes(&seen));
+        obs.push(f);
+    }
+    drop(peer);
+    settle().await;
+    if panicked.get() { vec![vec![9999]] } else { obs }
+}
+
 async fn run_case(c: Fields, start: Instant) -> Fields {
     let cfg = c.first().cloned().unwrap_or_default();
+    if cfg.get(8).copied().unwrap_or(0) != 0 {
+        return run_mqtt_case(c, start).await;
+    }
     let horizon = cfg.get(7).copied().unwrap_or(0);
     sleep_until(start).await;
     let mut scn = Scn::start(&cfg).await;
